@@ -2525,6 +2525,10 @@ class Interp:
                 if isinstance(t_, ObjV) and any(t_ is c_ for c_ in v.attrs['__class__'].attrs['__mro__'].items):
                     return Const(True)
             return Const(bool(mro_names & set(names)))
+        if isinstance(v, ObjV) and isinstance(v.attrs.get('__class__'), TypeV):
+            # a model object standing for an instance of a named type (its __class__ says which): that type's linearisation decides
+            lin_ = self._type_mro(v.attrs['__class__'].name) or [v.attrs['__class__'].name, 'object']
+            return Const(bool(set(lin_) & set(names)))
         if isinstance(v, ObjV):
             seen, todo = set(), [v.cls.name]
             while todo:
